@@ -70,6 +70,36 @@ def k_value(kspec, n):
     return kspec
 
 
+def store_of(c):
+    """which of Q, R the filter object holds from its constructor: none / Q / R / both (stored values always differ from
+    the per-call values)"""
+    if "store" in c:
+        return c["store"]
+    return {"call": "none", "ctor": "both", "both": "both", "partial": "both"}[c["qr_mode"]]
+
+
+def plan_pass(c, rng, j):
+    """(pass Q?, pass R?) for call j — decided INDEPENDENTLY for Q and for R (all four combinations occur; exactly one of the
+    two given is the interesting one); an argument that is not stored must be passed"""
+    stv = store_of(c)
+    if c.get("pass_seq"):
+        pq, pr = c["pass_seq"][j % len(c["pass_seq"])]
+        pq, pr = bool(pq), bool(pr)
+    else:
+        never = c.get("qr_mode") == "ctor"
+        pq = (rng.random() < 0.5) and not never
+        pr = (rng.random() < 0.5) and not never
+    if stv in ("none", "R"):
+        pq = True
+    if stv in ("none", "Q"):
+        pr = True
+    return pq, pr
+
+
+PASS_SEQ = [(1, 0), (0, 1), (1, 1), (0, 0), (0, 1), (1, 0)]
+GRADS = ["plain", "plain", "plain", "no_grad", "requires_grad", "inference"]
+
+
 def gen_run(rng: random.Random, quick: bool, force=None):
     """a run description (JSON-serialisable, regenerates all data from `seed`)"""
     force = force or {}
@@ -84,7 +114,15 @@ def gen_run(rng: random.Random, quick: bool, force=None):
     c["k"] = force.get("k", rng.choice(K_CHOICES))
     if c["filter"] == "ukf" and c["k"] == 0 and c["n"] == 3 and "n" not in force:
         c["n"] = rng.choice([1, 2, 4, 5, 6])        # k = 0 coincides with the default 3 - n only for n = 3
-    c["qr_mode"] = force.get("qr_mode", rng.choice(["call", "call", "ctor", "both", "both"]))
+    if "qr_mode" in force or "store" in force:
+        c["qr_mode"] = force.get("qr_mode", {"none": "call", "both": "both"}.get(force.get("store"), "partial"))
+        if "store" in force:
+            c["store"] = force["store"]
+    else:
+        c["store"] = rng.choice(["none", "none", "both", "both", "both", "Q", "R"])
+        c["qr_mode"] = {"none": "call", "both": "both"}.get(c["store"], "partial")
+    if "pass_seq" in force:
+        c["pass_seq"] = force["pass_seq"]
     c["t_mode"] = force.get("t_mode", rng.choice(["none", "none", "tensor", "reset", "mixed"]))
     c["timevar"] = c["t_mode"] != "none" or rng.random() < 0.3
     c["vary_qr"] = force.get("vary_qr", rng.random() < 0.3 and c["qr_mode"] != "ctor")
@@ -106,6 +144,13 @@ def gen_run(rng: random.Random, quick: bool, force=None):
     c["arg_mode"] = force.get("arg_mode", rng.choice(["fresh", "fresh", "inplace", "views"]))
     c["alias"] = force.get("alias", c["arg_mode"] == "views" and rng.random() < 0.5)
     c["extreme"] = force.get("extreme", rng.choice(["-"] * 5 + EXTREMES))
+    # hardening pass 2: grad modes, keyword/positional passing and k types per call, a failing call in the middle of the
+    # history, a copy of the filter object taking over for two calls, outputs scribbled over after every call
+    c["grad"] = force.get("grad", "mixed")
+    c["fail_at"] = force.get("fail_at", rng.choice([None, None, 0, 1, 2]))
+    c["fail_kind"] = force.get("fail_kind", rng.choice(["bad-y", "callback-f", "callback-g", "bad-P"]))
+    c["fork_at"] = force.get("fork_at", rng.choice([None, None, 1, 2]))
+    c["fork_kind"] = force.get("fork_kind", rng.choice(["deepcopy", "state_dict"]))
     c.update({kx: force[kx] for kx in ("cond", "scales", "xmag", "diag", "msqrt") if kx in force})
     if c["extreme"] == "tiny-scale":
         c["scales"] = [1e-6, 1e-7, 1e5] if c["dtype"] == "float64" else [1e-3, 1e-4, 1e2]
@@ -227,7 +272,10 @@ def materialise_run(c):
             st["k"] = rng.choice(K_CHOICES)
         else:
             st["k"] = c["k"]
-        st["pass_qr"] = c["qr_mode"] == "call" or (c["qr_mode"] == "both" and rng.random() < 0.5)
+        st["pass_q"], st["pass_r"] = plan_pass(c, rng, j)
+        st["positional"] = rng.random() < 0.3
+        st["k_type"] = rng.choice(["python", "python", "tensor"])
+        st["grad"] = (rng.choice(GRADS) if c.get("grad", "mixed") == "mixed" else c["grad"])
         d["steps"].append(st)
     d["t_reset"] = rng.choice([1, 3, 7]) if c["t_mode"] == "reset" else 0
     return d
@@ -341,6 +389,63 @@ class Feeder:
 
 def run_one(ctx: Ctx, c, lines, metas, verbose=False):
     """execute one run on the real code; append driver lines + what to compare them with"""
+    for _ in run_gen(ctx, c, lines, metas, verbose):
+        pass
+
+
+def interleave(gens, width=3):
+    """round-robin over groups of `width` runs: calls on different objects / filter types / dtypes alternate in one process
+    (module-level state written through one object and read through another would show)"""
+    for i in range(0, len(gens), width):
+        live = list(gens[i:i + width])
+        while live:
+            for g in list(live):
+                try:
+                    next(g)
+                except StopIteration:
+                    live.remove(g)
+
+
+def guarded_call(filt, mon, name, args, kw, st, is_ukf):
+    """one call of the filter object in the call style / grad mode of this step; returns (out, err)"""
+    x, y, u, P = args
+    kw = dict(kw)
+    gm = st.get("grad", "plain")
+    if gm == "requires_grad":       # same storage, but leaves of an autograd graph: VALUES must not depend on it
+        x, y, u, P = (a.detach().requires_grad_(True) for a in (x, y, u, P))
+        kw = {kx: (v.detach().requires_grad_(True) if kx in ("Q", "R") else v) for kx, v in kw.items()}
+    pos = [x, y, u, P]
+    if st.get("positional") and "Q" in kw and "R" in kw:      # forward(x, y, u, P, Q, R, t[, k]) positionally
+        pos += [kw.pop("Q"), kw.pop("R")]
+        if "t" in kw or (is_ukf and "k" in kw):
+            pos.append(kw.pop("t", None))
+            if is_ukf and "k" in kw:
+                pos.append(kw.pop("k"))
+    try:
+        if gm == "no_grad":
+            with torch.no_grad():
+                out = mon.call(name, filt, *pos, **kw)
+        elif gm == "inference":
+            with torch.inference_mode():
+                out = mon.call(name, filt, *pos, **kw)
+        else:
+            out = mon.call(name, filt, *pos, **kw)
+        return out, None
+    except Exception as e:  # noqa: BLE001
+        return None, f"{type(e).__name__}: {str(e)[:100]}"
+
+
+def make_filter(P_, c, model, Qs, Rs):
+    if c["filter"] == "ukf":
+        if c.get("msqrt") == "sym":
+            return P_.module.UKF(model, Q=Qs, R=Rs, msqrt=sym_sqrt)
+        return P_.module.UKF(model, Q=Qs, R=Rs)
+    return P_.module.EKF(model, Q=Qs, R=Rs)
+
+
+def run_gen(ctx: Ctx, c, lines, metas, verbose=False):
+    """generator version of a run: yields after every call so that runs can be interleaved"""
+    import copy
     P_ = uf.pp()
     d = materialise_run(c)
     n, m, p, dt = c["n"], c["m"], c["p"], dt_of(c["dtype"])
@@ -351,19 +456,18 @@ def run_one(ctx: Ctx, c, lines, metas, verbose=False):
     model = uf.fam_class()(prm, dt)
     if d["t_reset"]:
         model.reset(d["t_reset"])
-    ctorQl = ctorRl = None
-    if c["qr_mode"] == "ctor":
-        ctorQl, ctorRl = d["Qc"], d["Rc"]
-    elif c["qr_mode"] == "both":
-        ctorQl, ctorRl = d["Qdecoy"], d["Rdecoy"]
+    stv = store_of(c)
+    ctorQl = d["Qdecoy"] if stv in ("Q", "both") else None       # stored values always differ from the per-call ones
+    ctorRl = d["Rdecoy"] if stv in ("R", "both") else None
     ctorQ = None if ctorQl is None else T(ctorQl)
     ctorR = None if ctorRl is None else T(ctorRl)
     is_ukf = c["filter"] == "ukf"
+    filt = make_filter(P_, c, model, ctorQ, ctorR)
     if is_ukf and c.get("msqrt") == "sym":
-        filt = P_.module.UKF(model, Q=ctorQ, R=ctorR, msqrt=sym_sqrt)
         ctx.count("ukf.msqrt=sym")
-    else:
-        filt = (P_.module.UKF if is_ukf else P_.module.EKF)(model, Q=ctorQ, R=ctorR)
+    ctx.count(f"run.store={stv}")
+    original = None          # (filter, model, ctorQ, ctorR) while a copy of the object is taking the calls
+    fork_left = 0
     feed = Feeder(mode, dt)
     ctx.count(f"run.args={mode}")
     xl, Pl = d["x0"], d["P0"]
@@ -376,11 +480,13 @@ def run_one(ctx: Ctx, c, lines, metas, verbose=False):
         # ---- the caller changes, IN PLACE, tensors the objects hold: constructor Q/R and the system's parameters
         if mode == "inplace" and j > 0:
             dr = st["drift"]
-            if ctorQ is not None and dr["qr_scale"] != 1.0:
-                ctorQ.mul_(dr["qr_scale"])
-                ctorR.mul_(dr["qr_scale"])
-                ctorQl = [[v * dr["qr_scale"] for v in row] for row in ctorQl]
-                ctorRl = [[v * dr["qr_scale"] for v in row] for row in ctorRl]
+            if dr["qr_scale"] != 1.0 and (ctorQ is not None or ctorR is not None):
+                if ctorQ is not None:
+                    ctorQ.mul_(dr["qr_scale"])
+                    ctorQl = [[v * dr["qr_scale"] for v in row] for row in ctorQl]
+                if ctorR is not None:
+                    ctorR.mul_(dr["qr_scale"])
+                    ctorRl = [[v * dr["qr_scale"] for v in row] for row in ctorRl]
                 ctx.count("run.ctor-QR-updated-in-place")
             if dr["A_scale"] != 1.0 or any(dr["c1_delta"]):
                 prm = dict(prm)
@@ -389,15 +495,42 @@ def run_one(ctx: Ctx, c, lines, metas, verbose=False):
                 model.p_A0.mul_(dr["A_scale"])
                 model.p_c1.copy_(T(prm["c1"]))
                 ctx.count("run.system-updated-in-place")
-        if st["pass_qr"]:
-            Ql, Rl = st.get("Q", d["Qc"]), st.get("R", d["Rc"])
-        elif c["qr_mode"] == "both":           # not given for this call: the constructor's (current) values apply
-            Ql, Rl = ctorQl, ctorRl
-        else:
-            Ql, Rl = ctorQl, ctorRl
+        # ---- a copy of the filter object (deepcopy / fresh object + load_state_dict) takes over for two calls, then the
+        # original continues: each must follow its own law (kind 14). Not in `inplace` mode (the system drifts per object).
+        if original is not None and fork_left == 0:
+            filt, model, ctorQ, ctorR = original
+            original = None
+            ctx.count("run.fork.back-to-original")
+        if c.get("fork_at") == j and mode != "inplace" and original is None and j > 0:
+            original = (filt, model, ctorQ, ctorR)
+            try:
+                if c["fork_kind"] == "deepcopy":
+                    filt = copy.deepcopy(filt)
+                    model = filt.model
+                    ctorQ = filt._Q if ctorQ is not None else None
+                    ctorR = filt._R if ctorR is not None else None
+                else:
+                    f2 = make_filter(P_, c, model, None if ctorQ is None else torch.zeros_like(ctorQ),
+                                     None if ctorR is None else torch.zeros_like(ctorR))
+                    f2.load_state_dict(filt.state_dict())
+                    filt = f2
+                    ctorQ = filt._Q if ctorQ is not None else None
+                    ctorR = filt._R if ctorR is not None else None
+                fork_left = 2
+                ctx.count(f"run.fork.{c['fork_kind']}")
+            except Exception as e:  # noqa: BLE001
+                ctx.fail(dict(c, step=j), f"copy: {c['fork_kind']} of the {c['filter']} object raised {type(e).__name__}: {str(e)[:80]}")
+                filt, model, ctorQ, ctorR = original
+                original = None
+        if fork_left:
+            fork_left -= 1
+        # the source of Q and of R is decided independently: passed for this call, or the value the object stores
+        Ql = st.get("Q", d["Qc"]) if st["pass_q"] else ctorQl
+        Rl = st.get("R", d["Rc"]) if st["pass_r"] else ctorRl
+        ctx.count(f"run.pass(Q,R)=({int(st['pass_q'])},{int(st['pass_r'])}).store={stv}")
         ul = st["u"]
         alias_ux = bool(c.get("alias")) and m == n and j % 2 == 1            # the same tensor as state and as input
-        alias_qr = bool(c.get("alias")) and n == p and st["pass_qr"] and j % 2 == 0   # the same tensor as Q and as R
+        alias_qr = bool(c.get("alias")) and n == p and st["pass_q"] and st["pass_r"] and j % 2 == 0   # same tensor as Q and R
         if alias_ux:
             ul = xl
         if alias_qr:
@@ -419,23 +552,44 @@ def run_one(ctx: Ctx, c, lines, metas, verbose=False):
         u = x if alias_ux else feed.give("u", ul)
         stepcase = dict(c, step=j, k_call=kspec)
         kw = {}
-        if st["pass_qr"]:
+        if st["pass_q"]:
             kw["Q"] = feed.give("Q", Ql)
+        if st["pass_r"]:
             kw["R"] = kw["Q"] if alias_qr else feed.give("R", Rl)
         if t_arg is not None:
             kw["t"] = t_arg
         if is_ukf and kspec != "none":
-            kw["k"] = kval
+            kw["k"] = torch.tensor(float(kval), dtype=torch.float64) if st.get("k_type") == "tensor" else kval
         if alias_ux or alias_qr:
             ctx.count("run.same-tensor-as-two-arguments")
+        stc = dict(st)
+        if stc.get("grad") == "inference" and not is_ukf:
+            stc["grad"] = "no_grad"      # EKF needs autograd for its Jacobians; inference mode is probed separately
+        if stc.get("grad") == "requires_grad" and mode == "views" and c.get("alias"):
+            stc["grad"] = "plain"
+        ctx.count(f"run.grad={stc.get('grad', 'plain')}")
         clock0 = float(model.systime)
+        # ---- a failing call in the middle of the history (kind 11): it must leave the objects as they were
+        if c.get("fail_at") == j:
+            fk = c.get("fail_kind", "bad-y")
+            bad_args = [x, y, u, P]
+            if fk == "bad-y":
+                bad_args[1] = torch.zeros(p + 2, dtype=dt)
+            elif fk == "bad-P":
+                bad_args[3] = torch.zeros(n + 1, n + 1, dtype=dt)
+            else:
+                model.fail_next = fk[-1]
+            _, ferr = guarded_call(filt, mon, f"{c['filter']}.forward", bad_args, kw, dict(stc, positional=False), is_ukf)
+            model.fail_next = ""
+            ctx.count(f"run.failing-call.{fk}.{'raised' if ferr else 'returned'}")
+            if ctorQ is not None and not torch.equal(filt.Q, T(ctorQl)) or ctorR is not None and not torch.equal(filt.R, T(ctorRl)):
+                ctx.fail(stepcase, f"atomic: a failing {c['filter']} call ({fk}) changed the filter's stored Q/R")
+            if not all(torch.equal(getattr(model, "p_" + kx), T(prm[kx])) for kx in uf.FAM_KEYS):
+                ctx.fail(stepcase, f"atomic: a failing {c['filter']} call ({fk}) changed the system's parameters")
+            if float(model.systime) != clock0:
+                ctx.fail(stepcase, f"atomic: a failing {c['filter']} call ({fk}) moved the system clock")
         # ---- the real code
-        try:
-            out = mon.call(f"{c['filter']}.forward", filt, x, y, u, P, **kw)
-            err = None
-        except Exception as e:  # noqa: BLE001
-            out = None
-            err = f"{type(e).__name__}: {str(e)[:100]}"
+        out, err = guarded_call(filt, mon, f"{c['filter']}.forward", [x, y, u, P], kw, stc, is_ukf)
         # ---- references
         lin = not c["nonlinear"]
         ref = uf.mp_kalman_update(ref0, yl)
@@ -448,7 +602,8 @@ def run_one(ctx: Ctx, c, lines, metas, verbose=False):
             except (np.linalg.LinAlgError, ZeroDivisionError, FloatingPointError):
                 uinfo = None
         centre_ok = (not is_ukf) or kval >= 0
-        sig = (c["filter"], n, m, p, c["dtype"], lin, str(kspec) if is_ukf else "-", min(j, 3), c["qr_mode"], st["pass_qr"],
+        sig = (c["filter"], n, m, p, c["dtype"], lin, str(kspec) if is_ukf else "-", min(j, 3), stv, st["pass_q"], st["pass_r"],
+               stc.get("grad"),
                c["t_mode"], bool(c.get("vary_k") or c.get("k_seq")), mode, c.get("extreme", "-"),
                common.sig_mag(c["scales"][0]) // 2, common.sig_mag(c["scales"][2]) // 2, c["cond"])
         ctx.note_case(sig, True)
@@ -458,7 +613,7 @@ def run_one(ctx: Ctx, c, lines, metas, verbose=False):
             ctx.count(f"ukf.k={kspec}")
             if j > 0 and k_value(d["steps"][j - 1]["k"], n) != kval:
                 ctx.count("ukf.k-changed-between-calls")
-        if j > 0 and d["steps"][j - 1]["pass_qr"] != st["pass_qr"]:
+        if j > 0 and (d["steps"][j - 1]["pass_q"], d["steps"][j - 1]["pass_r"]) != (st["pass_q"], st["pass_r"]):
             ctx.count("run.qr-source-changed-between-calls")
         if err is not None:
             # a prior / predicted covariance that is singular at rounding level (its smallest eigenvalue is below
@@ -482,11 +637,22 @@ def run_one(ctx: Ctx, c, lines, metas, verbose=False):
         if bad is not None:
             ctx.fail(stepcase, f"output: {c['filter']} call {j} {bad}")
             break
-        x2, P2 = out
+        x2, P2 = (o.detach() for o in out)
+        # ---- outputs own their memory (kind 15): no internal overlap, and overwriting them must not reach the arguments,
+        # the filter, the system or a later call
+        if any(sz > 1 and sd == 0 for sz, sd in zip(P2.shape, P2.stride())) or any(sz > 1 and sd == 0 for sz, sd in zip(x2.shape, x2.stride())):
+            ctx.fail(stepcase, f"output: {c['filter']} call {j} returned an expanded (stride-0) tensor")
+        x2, P2 = x2.clone(), P2.clone()
+        if stc.get("grad") != "inference":
+            out[0].detach().mul_(-3.0).add_(7.0)
+            out[1].detach().zero_()
+            for nm, arg, vals in (("x", x, xl), ("P", P, Pl), ("y", y, yl), ("u", u, ul)):
+                if not torch.equal(arg.detach(), T(vals)):
+                    ctx.fail(stepcase, f"output-alias: overwriting the result of {c['filter']} call {j} changed the caller's `{nm}`")
         # ---- object / argument hygiene: nothing the caller holds may change, public state of the objects stays as set
         for nm in feed.touched():
             ctx.fail(stepcase, f"mutation: {c['filter']} call {j} wrote into the caller's buffer behind argument `{nm}` (a view)")
-        if ctorQ is not None and not (torch.equal(filt.Q, T(ctorQl)) and torch.equal(filt.R, T(ctorRl))):
+        if (ctorQ is not None and not torch.equal(filt.Q, T(ctorQl))) or (ctorR is not None and not torch.equal(filt.R, T(ctorRl))):
             ctx.fail(stepcase, f"state: {c['filter']} call {j} changed the filter's constructor Q/R")
         if not all(torch.equal(getattr(model, "p_" + kx), T(prm[kx])) for kx in uf.FAM_KEYS):
             ctx.fail(stepcase, f"state: {c['filter']} call {j} changed the system's parameters")
@@ -548,6 +714,7 @@ def run_one(ctx: Ctx, c, lines, metas, verbose=False):
         xl, Pl = x2.detach().double().tolist(), P2.detach().double().tolist()
         in_asym, in_lam = sym_defect(P2.detach())
         prev_tolP = tolPs
+        yield j
     for mu in mon.mutations:
         ctx.fail(dict(c), f"mutation: {mu['function']} changed its argument {mu['argument']}")
 
@@ -664,7 +831,10 @@ def gen_pf(rng: random.Random, stat: bool, quick: bool, force=None):
             c["N"] = min(c["N"], 40)
         c["T"] = rng.choice([1, 2, 3])
     c["timevar"] = rng.random() < 0.5
-    c["qr_mode"] = rng.choice(["call", "ctor", "both"])
+    c["store"] = force.get("store", rng.choice(["none", "both", "both", "Q", "R"]))
+    c["qr_mode"] = {"none": "call", "both": "both"}.get(c["store"], "partial")
+    c["fail_at"] = force.get("fail_at", rng.choice([None, None, 0, 1]))
+    c["fork_at"] = force.get("fork_at", rng.choice([None, None, 1]))
     f32 = c["dtype"] == "float32"
     c["cond"] = rng.choice([1.0, 10.0, 100.0])
     c["scales"] = [10 ** rng.uniform(-2, 2) for _ in range(3)] if not f32 else [10 ** rng.uniform(-1, 1) for _ in range(3)]
@@ -701,9 +871,12 @@ def materialise_pf(c):
     d["steps"] = [{"u": uf.round_dt(uf.vec_mag(rng, m, [0.0, 0.1, 1.0]), dt),
                    "ydev": [rng.gauss(0, 1) * rng.choice([0.3, 1.0, 1.5]) for _ in range(p)],
                    "torch_seed": rng.randrange(1 << 31)} for _ in range(c["T"])]
-    for st in d["steps"]:
-        st["pass_qr"] = c["qr_mode"] == "call" or (c["qr_mode"] == "both" and rng.random() < 0.5)
+    for j, st in enumerate(d["steps"]):
+        st["pass_q"], st["pass_r"] = plan_pass(c, rng, j)
+        st["pass_qr"] = st["pass_q"] and st["pass_r"]
         st["qr_scale"] = rng.choice([1.0, 2.0, 0.5])       # the per-call Q, R differ from call to call
+        st["grad"] = rng.choice(GRADS)
+        st["positional"] = rng.random() < 0.3
     for j, st in enumerate(d["steps"]):
         if c.get("qr_scales"):
             st["qr_scale"] = c["qr_scales"][j % len(c["qr_scales"])]
@@ -711,14 +884,22 @@ def materialise_pf(c):
 
 
 def pf_qr(c, d, st, T):
-    """(Q, R) in force for this call and the keyword arguments that carry them: given per call, or the constructor's"""
-    if st["pass_qr"]:
-        f = st.get("qr_scale", 1.0)
-        Ql, Rl = [[v * f for v in row] for row in d["Qc"]], [[v * f for v in row] for row in d["Rc"]]
-        return Ql, Rl, {"Q": T(Ql), "R": T(Rl)}
-    if c["qr_mode"] == "both":
-        return d["Qdecoy"], d["Rdecoy"], {}
-    return d["Qc"], d["Rc"], {}
+    """(Q, R) in force for this call — the source of each decided independently (passed for this call / stored in the
+    filter object) — and the values to pass"""
+    f = st.get("qr_scale", 1.0)
+    stv = store_of(c)
+    passed = {}
+    if st["pass_q"]:
+        Ql = [[v * f for v in row] for row in d["Qc"]]
+        passed["Q"] = Ql
+    else:
+        Ql = d["Qdecoy"]
+    if st["pass_r"]:
+        Rl = [[v * f for v in row] for row in d["Rc"]]
+        passed["R"] = Rl
+    else:
+        Rl = d["Rdecoy"]
+    return Ql, Rl, passed
 
 
 def pf_setup(c, d):
@@ -726,11 +907,9 @@ def pf_setup(c, d):
     dt = dt_of(c["dtype"])
     T = lambda v: torch.tensor(v, dtype=dt)
     model = uf.fam_class()(d["prm"], dt)
-    ctorQ = ctorR = None
-    if c["qr_mode"] == "ctor":
-        ctorQ, ctorR = T(d["Qc"]), T(d["Rc"])
-    elif c["qr_mode"] == "both":
-        ctorQ, ctorR = T(d["Qdecoy"]), T(d["Rdecoy"])
+    stv = store_of(c)
+    ctorQ = T(d["Qdecoy"]) if stv in ("Q", "both") else None
+    ctorR = T(d["Rdecoy"]) if stv in ("R", "both") else None
     pf = rec_pf_class()(model, Q=ctorQ, R=ctorR, particles=c["N"])
     pf.rec = {}
     return model, pf, T
@@ -759,36 +938,73 @@ def run_pf_corr(ctx: Ctx, c, lines, metas):
     ctx.count(f"pf-corr.args={mode}")
     xl, Pl = d["x0"], d["P0"]
     mon = common.PurityMonitor()
+    import copy
+    stv = store_of(c)
+    ctx.count(f"pf-corr.store={stv}")
+    original = None
     for j, st in enumerate(d["steps"]):
+        if original is not None:            # the copy took one call; the original object continues
+            if float(original[1].systime) != original[2]:
+                ctx.fail(dict(c, step=j), "copy: a call on the deep copy of the PF object moved the ORIGINAL system's clock")
+            pf, model = original[0], original[1]
+            original = None
+        if c.get("fork_at") == j and j > 0:
+            original = (pf, model, float(model.systime))
+            try:
+                pf = copy.deepcopy(pf)
+                model = pf.model
+                ctx.count("pf-corr.fork.deepcopy")
+            except Exception as e:  # noqa: BLE001
+                ctx.fail(dict(c, step=j), f"copy: deepcopy of the PF object raised {type(e).__name__}: {str(e)[:80]}")
+                pf, model = original[0], original[1]
+                original = None
         t_eff = float(model.systime)
         fam = uf.MpFam(d["prm"], t_eff)
-        Ql, Rl, kw = pf_qr(c, d, st, T)
+        Ql, Rl, passed = pf_qr(c, d, st, T)
+        ctx.count(f"pf-corr.pass(Q,R)=({int(st['pass_q'])},{int(st['pass_r'])}).store={stv}")
         yl = uf.round_dt(pf_measurement(fam, st, n, p, xl, Pl, Rl), dt)
         x, P, y, u = feed.give("x", xl), feed.give("P", Pl), feed.give("y", yl), feed.give("u", st["u"])
-        if kw:
-            kw = {"Q": feed.give("Q", Ql), "R": feed.give("R", Rl)}
+        kw = {kx: feed.give(kx, v) for kx, v in passed.items()}
         stepcase = dict(c, step=j)
+        gm = st.get("grad", "plain")
+        ctx.count(f"pf-corr.grad={gm}")
+        # ---- a failing call (measurement of the wrong length) must leave the objects — incl. the system clock — as they were
+        if c.get("fail_at") == j:
+            clock0 = float(model.systime)
+            _, ferr = guarded_call(pf, mon, "pf.forward", [x, torch.zeros(p + 2, dtype=dt), u, P], kw, {"grad": "plain"}, False)
+            ctx.count(f"pf-corr.failing-call.{'raised' if ferr else 'returned'}")
+            if ferr and float(model.systime) != clock0:
+                ctx.fail(dict(stepcase, failing_call="bad-y"),
+                         f"atomic: a PF call that raised ({ferr[:40]}) moved the system clock from {clock0} to "
+                         f"{float(model.systime)}; the next call on a time-dependent system differs from the history without it",
+                         known_matcher=lambda kf, cs: kf.get("predicate") == "pf_clock_not_atomic" and cs.get("failing_call") == "bad-y")
+                model.systime = clock0          # continue the history as if the failed call had not happened
+            t_eff = float(model.systime)
         torch.manual_seed(st["torch_seed"])
         pf.rec = {}
-        try:
-            with RandRecorder() as rr:
-                out = mon.call("pf.forward", pf, x, y, u, P, **kw)
-        except Exception as e:  # noqa: BLE001
-            ctx.fail(stepcase, f"raises: PF raised at call {j} (arguments: {mode}): {type(e).__name__}: {str(e)[:100]}")
+        with RandRecorder() as rr:
+            out, err = guarded_call(pf, mon, "pf.forward", [x, y, u, P], kw, st, False)
+        if err is not None:
+            ctx.fail(stepcase, f"raises: PF raised at call {j} (arguments: {mode}, grad mode: {gm}): {err}")
             break
         bad = bad_output(out, n, dt)
         if bad is not None:
             ctx.fail(stepcase, f"output: PF call {j} {bad}")
             break
-        x2, P2 = out
+        x2, P2 = (o.detach().clone() for o in out)
+        if gm != "inference":          # overwriting the result must not reach the arguments or a later call (kind 15)
+            out[0].detach().mul_(-3.0).add_(7.0)
+            out[1].detach().zero_()
+            for nm, arg, vals in (("x", x, xl), ("P", P, Pl), ("y", y, yl), ("u", u, st["u"])):
+                if not torch.equal(arg.detach(), T(vals)):
+                    ctx.fail(stepcase, f"output-alias: overwriting the result of PF call {j} changed the caller's `{nm}`")
         for nm in feed.touched():
             ctx.fail(stepcase, f"mutation: PF call {j} wrote into the caller's buffer behind argument `{nm}` (a view)")
         if pf.particles != N:
             ctx.fail(stepcase, f"state: PF call {j} changed its particle count to {pf.particles}")
-        if c["qr_mode"] != "call":
-            cq, cr = (d["Qc"], d["Rc"]) if c["qr_mode"] == "ctor" else (d["Qdecoy"], d["Rdecoy"])
-            if not (torch.equal(pf.Q, T(cq)) and torch.equal(pf.R, T(cr))):
-                ctx.fail(stepcase, f"state: PF call {j} changed the filter's constructor Q/R")
+        if (stv in ("Q", "both") and not torch.equal(pf.Q, T(d["Qdecoy"]))) or \
+                (stv in ("R", "both") and not torch.equal(pf.R, T(d["Rdecoy"]))):
+            ctx.fail(stepcase, f"state: PF call {j} changed the filter's stored Q/R")
         if not all(torch.equal(getattr(model, "p_" + kx), T(d["prm"][kx])) for kx in uf.FAM_KEYS):
             ctx.fail(stepcase, f"state: PF call {j} changed the system's parameters")
         ctx.note_case(("pf-corr", n, m, p, N, c["dtype"], c["nonlinear"], j, c["qr_mode"]), N >= 2)
@@ -954,7 +1170,8 @@ def run_pf_stat(ctx: Ctx, c, verbose=False):
         t_eff = float(model.systime)
         fam = uf.MpFam(d["prm"], t_eff)
         xl, Pl = x.double().tolist(), P.double().tolist()
-        Ql, Rl, kw = pf_qr(c, d, st, T)
+        Ql, Rl, passed = pf_qr(c, d, st, T)
+        kw = {kx: T(v) for kx, v in passed.items()}
         yl = uf.round_dt(pf_measurement(fam, st, n, p, xl, Pl, Rl), dt)
         y, u = T(yl), T(st["u"])
         stepcase = dict(c, step=j)
